@@ -1049,7 +1049,8 @@ class Inliner:
                 _hoist_common_tails(new)
                 _propagate_copies(new)
                 _sink_temp_copies(new)
-                from .model import _sink_returns, _unflag_loops
+                from .model import _sink_returns, _unflag_loops, _inline_branch_flags
+                _inline_branch_flags(ast.Module(body=[new], type_ignores=[]))
                 _sink_returns(ast.Module(body=[new], type_ignores=[]))
                 _unflag_loops(ast.Module(body=[new], type_ignores=[]))
                 ast.fix_missing_locations(new)
